@@ -1,4 +1,5 @@
 import FiberModel.C20.Lemmas
+import FiberModel.C20.CookieScanLemmas
 /-
 C20 — property theorems (only). Helper lemmas: Base64Lemmas.lean, Lemmas.lean.
 
@@ -401,6 +402,49 @@ theorem response_meets_spec_custom {A : Aead} (hA : A.Correct) (hG : A.GcmShape)
     respAllOK wrapWire ex (issuedBy ex cs ws) cs ws = true :=
   response_meets_spec (wrap_correct (std_correct hA hG)) (wrap_format (std_format hG)) ex ns cs ws hns hb h
 
+/-- what fasthttp's cookie scanner (client side, or `fasthttp.Cookie.Parse`) reads off the Set-Cookie
+    texts the middleware wrote is exactly the (name, value) pairs of `echo` -/
+theorem scan_of_written {A : Aead} {key : Bytes} {ex : List Bytes} {cs : List RCookie} {ws : List WCookie}
+    (hp : Paired (WRel (stdCodec A key) ex) cs ws)
+    (hnames : ∀ c ∈ cs, c.pkey ≠ [] ∧ ∀ x ∈ c.pkey, plainByte x ∧ x ≠ 61)
+    (htail : ∀ c ∈ cs, c.tail = [] ∨ ∃ r, c.tail = 59 :: r)
+    (hparse : ∀ c ∈ cs, isDisabled c.key ex = true → scanSetCookie c.raw = (c.pkey, c.pvalue)) :
+    ws.map (fun w => scanSetCookie w.raw) = echo ws := by
+  induction hp with
+  | nil => rfl
+  | @cons c w cs ws hr _ ih =>
+    simp only [echo, List.map_cons] at ih ⊢
+    rw [ih (fun x hx => hnames x (List.mem_cons_of_mem _ hx)) (fun x hx => htail x (List.mem_cons_of_mem _ hx))
+      (fun x hx => hparse x (List.mem_cons_of_mem _ hx))]
+    congr 1
+    cases hd : isDisabled c.key ex with
+    | true =>
+      obtain ⟨h1, h2⟩ := hr.2.2.1 hd
+      rw [h1, hparse c (by simp) hd, hr.1, h2]
+    | false =>
+      obtain ⟨⟨n, _, he⟩, hraw⟩ := hr.2.2.2 hd
+      obtain ⟨kd, _, _, hval⟩ := encryptCookie_some he
+      rw [hraw, hr.1]
+      have hn := hnames c (by simp)
+      exact scan_render c.pkey w.value c.tail hn.1 hn.2 (by rw [hval]; exact encode_plain _) (htail c (by simp))
+
+/-- ROUND TRIP ON THE TEXT LEVEL (utils.go's pair): the handler sets cookies (distinct plain names,
+    byte values, attributes rendered by fasthttp), the client reads the Set-Cookie TEXTS with the cookie
+    scanner and sends the pairs back: the next handler's request holds every cookie once with its
+    original value. -/
+theorem roundtrip_text {A : Aead} (hA : A.Correct) (hG : A.GcmShape) (key : Bytes) (ex : List Bytes)
+    (ns : List Bytes) (cs : List RCookie) (ws : List WCookie) (hns : ∀ n ∈ ns, goodNonce n)
+    (hb : ∀ c ∈ cs, IsBytes c.pvalue) (hkey : ∀ c ∈ cs, isDisabled c.pkey ex = isDisabled c.key ex)
+    (hnd : (cs.map (·.pkey)).Nodup)
+    (hnames : ∀ c ∈ cs, c.pkey ≠ [] ∧ ∀ x ∈ c.pkey, plainByte x ∧ x ≠ 61)
+    (htail : ∀ c ∈ cs, c.tail = [] ∨ ∃ r, c.tail = 59 :: r)
+    (hparse : ∀ c ∈ cs, isDisabled c.key ex = true → scanSetCookie c.raw = (c.pkey, c.pvalue))
+    (h : encryptJar (stdCodec A key) ex ns cs = some ws) :
+    decryptJar (stdCodec A key) ex (ws.map fun w => scanSetCookie w.raw) =
+      cs.map fun c => (c.pkey, c.pvalue) := by
+  rw [scan_of_written (encryptJar_rel _ ex cs ns ws hns h) hnames htail hparse]
+  exact roundtrip_aesgcm hA hG key ex ns cs ws hns hb hkey hnd h
+
 /-! ## whole histories -/
 
 /-- unforgeability along a history: at every step, whatever the request carries that the Decryptor
@@ -589,6 +633,16 @@ def exCookies : List RCookie :=
 example : (encryptJar (stdCodec toyAead exKey) [b "csrf_"] [List.replicate 12 5] exCookies).map
     (fun ws => (ws.map (·.raw) |>.drop 1, decryptJar (stdCodec toyAead exKey) [b "csrf_"] (echo ws)))
     = some ([b "csrf_=t"], [(b "a", b "hi"), (b "csrf_", b "t")]) := by decide
+
+-- the same on the text level: the Set-Cookie texts, scanned like a client would, decrypt to the originals
+example : (encryptJar (stdCodec toyAead exKey) [b "csrf_"] [List.replicate 12 5] exCookies).map
+    (fun ws => decryptJar (stdCodec toyAead exKey) [b "csrf_"] (ws.map fun w => scanSetCookie w.raw))
+    = some [(b "a", b "hi"), (b "csrf_", b "t")] := by decide
+
+-- the scanner on a request header: split on `;`, first `=`, blanks and one pair of quotes removed,
+-- nameless values kept, empty pairs dropped
+example : parseCookieHeader (b "a=1; b = \"q\" ;; =x; y; c=d=e") =
+    [(b "a", b "1"), (b "b", b "q"), ([], b "x"), ([], b "y"), (b "c", b "d=e")] := by decide
 
 def exL : SealLog := [(List.replicate 12 7, List.replicate 17 9, b "v")]
 def exWire : Bytes := encode (List.replicate 12 7 ++ List.replicate 17 9)
